@@ -211,6 +211,43 @@ def _family(client_async: bool):
     return fam
 
 
+def _history_family(client_async: bool):
+    def fam(w: World) -> None:
+        """A long-lived client: several requests, one after another, on the same client with one client-wide strategy."""
+        ch = w.ch
+        n_req = 2 + ch.draw(3, 'history.n')
+        first = CS.draw_scenario(ch, cancel=False, max_tracers=1)
+        first['placement'], first['request_strategy'] = 'client', 'unset'
+        if first['client_strategy'] is None:
+            first['client_strategy'] = CS.draw_strategy(ch)
+        scns = [first]
+        for _ in range(n_req - 1):
+            nxt = CS.draw_scenario(ch, cancel=False, max_tracers=1)
+            for key in ('client_strategy', 'strict', 'server_async', 'tracers'):
+                nxt[key] = first[key]
+            nxt['placement'], nxt['request_strategy'] = 'client', 'unset'
+            n = first['client_strategy']['backoff']['attempts']
+            nxt['script'] = (nxt['script'] + nxt['script'] + nxt['script'])[:n + 2]
+            scns.append(nxt)
+        first['script'] = (first['script'] * 3)[:first['client_strategy']['backoff']['attempts'] + 2]
+        for scn in scns:
+            normalise_script(scn)
+        w.scenario = {'client_async': client_async, 'requests': scns}
+        w.nontrivial = True
+        stack = None
+        for r, scn in enumerate(scns):
+            obs = CS.run_scenario(w, scn, client_async, reuse=stack, tok_prefix=f'r{r}f')
+            stack = obs.stack
+            before = len(w.violations)
+            judge(w, scn, obs, client_async)
+            if len(w.violations) > before:
+                for v in w.violations[before:]:
+                    v.ctx['request_index'] = r
+                return
+        w.probe('history.requests_%d' % len(scns))
+    return fam
+
+
 SWEEP_SINGLE = ['ok', 'err_listed', 'err_unlisted', 'exc_conn', 'exc_reset', 'exc_other', 'lost_conn']
 SWEEP_BATCH = ['ok', 'batch_err_listed', 'batch_err_unlisted', 'exc_conn', 'exc_reset', 'exc_other', 'err_listed']
 SWEEP_NOTIFY = ['ok', 'exc_conn', 'exc_reset', 'exc_other']
@@ -227,7 +264,8 @@ def systematic(tier: str):
                 yield CS.forced_script(kind, n, list(seq), strategy_variant=k)
 
 
-FAMILIES = {'retry.sync': _family(False), 'retry.async': _family(True)}
+FAMILIES = {'retry.sync': _family(False), 'retry.async': _family(True),
+            'retry.history.sync': _history_family(False), 'retry.history.async': _history_family(True)}
 SYSTEMATIC = {'retry.sync': systematic, 'retry.async': systematic}
 RULE = ('systematic part: every per-attempt outcome sequence of length n+2 over {success, listed code, unlisted code, '
         'batch-level listed / unlisted error, listed exception, subclass of a listed exception, unlisted exception, lost '
@@ -236,7 +274,7 @@ RULE = ('systematic part: every per-attempt outcome sequence of length n+2 over 
         'seeded scenarios incl. per-request / disabled / replaced strategies; distinct = distinct history digest; '
         'non-trivial = at least one fault fired')
 PLAN = {
-    'quick': {'retry.sync': 60000, 'retry.async': 60000},
-    'thorough': {'retry.sync': 40000, 'retry.async': 40000},
+    'quick': {'retry.sync': 60000, 'retry.async': 60000, 'retry.history.sync': 15000, 'retry.history.async': 15000},
+    'thorough': {'retry.sync': 40000, 'retry.async': 40000, 'retry.history.sync': 40000, 'retry.history.async': 40000},
 }
 THOROUGH_BUDGET_S = 600
